@@ -225,31 +225,48 @@ def run_history(ctx, mon, S, case):
     probs = []
     try:
         mon.reset()
-        objs = [S.LinearScale().domain(case["init_domain"]).range(list(case["init_range"]))]
+        if hash(repr(case["init_range"])) % 3 == 0:
+            objs = [S.LinearScale().range(list(case["init_range"])).domain(case["init_domain"])]  # the range first, then the domain
+        else:
+            objs = [S.LinearScale().domain(case["init_domain"]).range(list(case["init_range"]))]
+        want = [{"domain": list(case["init_domain"]), "range": list(case["init_range"]), "clamp": False}]  # what the caller last set
         for op in ops:
             o = objs[op[1]]
+            wi = want[op[1]]
             if op[0] == "domain":
                 o.domain(op[2])
+                wi["domain"] = list(op[2])
             elif op[0] == "range":
                 o.range(tuple(op[2]) if hash(repr(op[2])) % 5 == 0 else list(op[2]))
+                wi["range"] = list(op[2])
             elif op[0] in ("range-edit-in-place", "domain-edit-in-place"):
                 acc = o.range if op[0].startswith("range") else o.domain
                 lst = acc()
                 if isinstance(lst, list) and lst[1 - op[2]] != op[3]:
                     lst[op[2]] = op[3]
                     acc(lst)
+                    wi["range" if op[0].startswith("range") else "domain"] = list(lst)
                     edited = True
             elif op[0] == "clamp":
                 o.clamp(op[2])
+                wi["clamp"] = bool(op[2])
             elif op[0] == "nice":
                 o.nice(op[2]) if op[2] is not None else o.nice()
+                wi["domain"] = None  # nice() moves the domain (C14); range and clamp stay
             elif op[0] == "copy":
                 c = o.copy()
                 objs.append(c)
+                want.append({"domain": wi["domain"] and list(wi["domain"]), "range": list(wi["range"]), "clamp": wi["clamp"]})
                 copied.add(op[1])
                 copied.add(len(objs) - 1)
             if op[0] in ("nice", "domain") and op[1] in copied:
                 copy_then_mut = True
+            # one setter leaves what the others set: every object still reports the range, clamp flag and (unless niced) domain it was given
+            for x, w in zip(objs, want):
+                if list(x.range()) != w["range"] or bool(x.clamp()) != w["clamp"] or (w["domain"] is not None and list(x.domain()) != w["domain"]):
+                    probs.append("setter interference after %s: reports domain %r range %r clamp %r, the caller set %r" % (op[0], list(x.domain()), list(x.range()), x.clamp(), w))
+            if probs:
+                break
             # evaluate every live object after every operation (through the monitored entry points)
             for x in objs:
                 d = x.domain()
@@ -269,7 +286,7 @@ def run_history(ctx, mon, S, case):
         vs = mon.violations[-(mon.n_violations - v0):][:4]
         ctx.judge(stratum, VIOLATED, case, finding=vs + probs, key="history:" + (vs[0]["kind"] if vs else "monitor"))
     elif probs:
-        ctx.judge(stratum, VIOLATED, case, finding=probs, key="history:raised")
+        ctx.judge(stratum, VIOLATED, case, finding=probs, key="history:setter-interference" if probs[0].startswith("setter interference") else "history:raised")
     else:
         ctx.judge(stratum, HELD, case, nontrivial=copy_then_mut)
 
